@@ -3,6 +3,7 @@
 # For each patch: apply it to a scratch worktree of /repo (never to /repo itself), run all 20 quick checks against
 # that worktree (VERIF_REPO), record which checks fire, and reset the worktree. Checks run 6 at a time.
 OUT=$1; shift
+CHECK="$(cd "$(dirname "$0")/.." && pwd)/check"
 WT=${MATRIX_WT:-/tmp/matrixrepo}
 git -C /repo worktree prune
 [ -d "$WT" ] || git -C /repo worktree add --detach "$WT" HEAD -q || exit 9
@@ -13,9 +14,9 @@ for P in "$@"; do
   name=$(echo "$P" | sed 's#/tmp/seed/##; s#/verif/##; s#/out/#/#')
   if ! git apply "$P" 2>/dev/null; then echo "$name APPLY-FAILED" >> "$OUT"; continue; fi
   T=$(mktemp -d /tmp/matrix.XXXX)
-  /verif/check C01 > $T/C01.log 2>&1; echo $? > $T/C01.rc
-  printf "%s\n" C05 C14 | xargs -P 2 -I{} sh -c "/verif/check {} > $T/{}.log 2>&1; echo \$? > $T/{}.rc"
-  printf "%s\n" C02 C03 C04 C06 C07 C08 C09 C10 C11 C12 C13 C15 C16 C17 C18 C19 C20 | xargs -P 6 -I{} sh -c "/verif/check {} > $T/{}.log 2>&1; echo \$? > $T/{}.rc"
+  $CHECK C01 > $T/C01.log 2>&1; echo $? > $T/C01.rc
+  printf "%s\n" C05 C14 | xargs -P 2 -I{} sh -c "$CHECK {} > $T/{}.log 2>&1; echo \$? > $T/{}.rc"
+  printf "%s\n" C02 C03 C04 C06 C07 C08 C09 C10 C11 C12 C13 C15 C16 C17 C18 C19 C20 | xargs -P 6 -I{} sh -c "$CHECK {} > $T/{}.log 2>&1; echo \$? > $T/{}.rc"
   fired=""
   for c in C01 C02 C03 C04 C05 C06 C07 C08 C09 C10 C11 C12 C13 C14 C15 C16 C17 C18 C19 C20; do
     rc=$(cat $T/$c.rc)
